@@ -103,7 +103,10 @@ def snap_diff_edif(s0, s1):
         if k[0] == "data" and isinstance(w, dict):
             v2 = {a: b for a, b in v.items() if a not in EDIF_KEYS}
             w2 = {a: b for a, b in w.items() if a not in EDIF_KEYS}
-            if all(a in w and w[a] == b for a, b in v.items() if a in EDIF_KEYS):
+            # the permitted side effect is the recording of GENERATED identifiers: keys an element already had keep their
+            # values, and an element that came with an identifier gains nothing
+            gained = [a for a in EDIF_KEYS if a in w and a not in v]
+            if all(a in w and w[a] == b for a, b in v.items() if a in EDIF_KEYS) and not ("EDIF.identifier" in v and gained):
                 if v2 == w2:
                     continue
                 if ".NAME" not in v2 and {a: b for a, b in w2.items() if a != ".NAME"} == v2:
